@@ -245,3 +245,58 @@ class Substrate:
             shutil.rmtree(scratch, ignore_errors=True)
         return sorted(os.path.join(fdir, f) for f in os.listdir(fdir)
                       if f.endswith(".jsonl"))
+
+
+def _ir_facts(self):
+    """E2: compile every unit to LLVM bitcode with the build's flags, link,
+    run dreach.  Returns path of the JSON facts (cached per tree hash)."""
+    out = os.path.join(self.cdir, "ir", "dreach.json")
+    if os.path.exists(out):
+        return out
+    dreach = os.path.join(BIN, "dreach")
+    if not os.path.exists(dreach):
+        subprocess.run([os.path.join(VERIF, "tools", "build.sh")])
+    if not os.path.exists(dreach):
+        raise AnalysisBroken("dreach is not built (run MANIFEST.setup_cmd)")
+    # the library (what ships as libdraco) + controls; the two command line
+    # tools each define main() and are not part of the library
+    units = [u for u in self.compdb() if "/src/draco/tools/" not in u["file"]] + self.control_units()
+    irdir = os.path.join(self.cdir, "ir")
+    if os.path.exists(irdir):
+        shutil.rmtree(irdir)
+    os.makedirs(irdir)
+    scratch = tempfile.mkdtemp(prefix="verif-e2-")
+    try:
+        t0 = time.time()
+
+        def comp(iu):
+            i, u = iu
+            bc = os.path.join(scratch, "u%03d.bc" % i)
+            args = [a for a in u["args"] if a not in ("-O2", "-O3", "-O1")]
+            cmd = ["clang++"] + args + ["-O0", "-Xclang", "-disable-O0-optnone", "-g",
+                                        "-emit-llvm", "-c", u["file"], "-o", bc]
+            r = subprocess.run(cmd, stdout=subprocess.PIPE, stderr=subprocess.STDOUT, text=True)
+            return bc, r.returncode, r.stdout
+
+        with ThreadPoolExecutor(NPROC) as ex:
+            res = list(ex.map(comp, enumerate(units)))
+        bad = [(bc, o) for bc, rc, o in res if rc != 0]
+        if bad:
+            raise AnalysisBroken("IR compile failed for %d units: %s" % (len(bad), bad[0][1][-800:]))
+        linked = os.path.join(scratch, "all.bc")
+        r = subprocess.run(["llvm-link-14", "-o", linked] + [bc for bc, _, _ in res],
+                           stdout=subprocess.PIPE, stderr=subprocess.STDOUT, text=True)
+        if r.returncode != 0:
+            raise AnalysisBroken("llvm-link failed: " + r.stdout[-800:])
+        r = subprocess.run([dreach, linked, out + ".tmp"], stdout=subprocess.PIPE,
+                           stderr=subprocess.STDOUT, text=True)
+        if r.returncode != 0:
+            raise AnalysisBroken("dreach failed: " + r.stdout[-800:])
+        os.rename(out + ".tmp", out)
+        log("E2: %d units compiled, linked and analysed in %.1fs" % (len(units), time.time() - t0))
+    finally:
+        shutil.rmtree(scratch, ignore_errors=True)
+    return out
+
+
+Substrate.ir_facts = _ir_facts
